@@ -397,6 +397,19 @@ Theorem c04_rpc_config_matrix : forall cache store app tok,
 Proof. exact config_matrix. Qed.
 Print Assumptions c04_rpc_config_matrix.
 
+(* rpc.Proxy in front of an auth-enabled backend is transparent for the decision: every call is judged on ITS OWN
+   (app, token) -- a call for app A with a wrong token is rejected also right after a correctly authenticated call for A
+   through the same proxy (connections are per (app, token), nothing is remembered per app) *)
+Theorem c04_rpc_proxy_transparent : forall auth strict cache store md,
+  server_config_gate auth strict cache store (proxy_md md) = server_config_gate auth strict cache store md.
+Proof. intros. unfold server_config_gate. destruct auth; [apply proxy_transparent | reflexivity]. Qed.
+Print Assumptions c04_rpc_proxy_transparent.
+
+(* api.WithChain replaces the default middleware chain only: the group's gate is appended to whichever chain is used *)
+Theorem c04_custom_chain_keeps_gate : forall (A : Type) (custom_chain : bool) (gate : A), bind_route custom_chain gate = bind_route false gate.
+Proof. reflexivity. Qed.
+Print Assumptions c04_custom_chain_keeps_gate.
+
 (* the interceptors: neither the method name nor unary/stream enters the decision, and the handler runs iff the
    call is accepted (code OK) *)
 Theorem c04_rpc_method_irrelevant : forall mode mode' m m' strict cache store md,
